@@ -40,7 +40,9 @@ CONSTANTS Names,       \* identifiers used by name events, e.g. {"a","b"}
                        \*   "-" (a unique name outside Names) is always allowed
           Libs,        \* layouts of the second module: subset of
                        \*   {"none", "module", "package", "relative", "external"}
-                       \*   ("external": lib lies outside the project, on its path)
+                       \*   ("external": lib lies outside the project, on its path;
+                       \*    "shadowed": lib is a top-level module, the first module lives
+                       \*    in a package that contains a sibling module of the same name)
           ModFresh,    \* fresh module names: targets of RenameModule
           MaxScopes,   \* bound on Len(scopes)
           MaxEv,       \* bound on Cardinality(ev)
@@ -69,10 +71,19 @@ Decoys      == {"cmtdecoy", "strdecoy"}       \* the identifier inside a comment
 \*   asattr    `import lib as q` .. `q.n`
 LibOps      == {"libdef", "libuse"}
 LibRefOps   == {"fromlib", "fromlibas", "modattr", "asattr"}
+\* Layout "shadowed": the importing module is pk/mod.py, lib is the top-level lb.py and
+\* pk/lb.py is a *different* module with the same name (the sibling).  Python 3 has no
+\* implicit relative imports: `import lb` / `from lb import n` in pk/mod.py mean the
+\* top-level module.  The sibling's own names are separate bindings:
+\*   sibdef / sibuse  (scope 0)  `n = ..` / a reference at the top level of the sibling
+\*   fromsibas        `from .lb import n as q` in the first module: the token n is the sibling's
+SibOps      == {"sibdef", "sibuse"}
+SibRefOps   == {"fromsibas"}
+IsSibTok(e) == e[2] \in SibOps \cup SibRefOps
 \* operations allowed in a scope of the given kind
 OpsOf(kind) ==
-  CASE kind = "module"   -> StmtBindOps \cup {"use", "fuse"} \cup Decoys \cup LibRefOps
-    [] kind = "function" -> StmtBindOps \cup ParamOps \cup DeclOps \cup LibRefOps
+  CASE kind = "module"   -> StmtBindOps \cup {"use", "fuse"} \cup Decoys \cup LibRefOps \cup SibRefOps
+    [] kind = "function" -> StmtBindOps \cup ParamOps \cup DeclOps \cup LibRefOps \cup SibRefOps
                               \cup {"use", "fuse", "defuse", "kwcall"} \cup Decoys
     [] kind = "class"    -> StmtBindOps \cup DeclOps \cup {"use", "fuse"} \cup Decoys
     [] kind = "comp"     -> {"for", "use", "walrus", "iteruse"}
@@ -165,6 +176,7 @@ BScope(P, e) ==
   LET s == e[1]  op == e[2]  n == e[3] IN
   CASE op \in Decoys                   -> 0
     [] op \in LibOps                   -> 0
+    [] op \in SibOps \cup SibRefOps     -> 0
     [] op \in LibRefOps \ {"fromlib"}  -> 0
     [] op \in {"iteruse", "defuse"}    -> Resolve(P, Parent(P, s), n)
     [] op = "walrus" /\ IsComp(P, s)   -> Resolve(P, Hoist(P, s), n)
@@ -213,16 +225,24 @@ InLib(P, e) ==
      \/ BScope(P, e) \in AliasScopes(P, e[3])
 LibOcc(P, n) == { e \in AllEv(P) : e[3] = n /\ InLib(P, e) }
 LibDefined(P, n) == <<0, "libdef", n>> \in P.ev
+\* the sibling's name n: one class of its own, never merged with lib's n
+SibOcc(P, n) == { e \in AllEv(P) : e[3] = n /\ IsSibTok(e) }
+SibDefined(P, n) == <<0, "sibdef", n>> \in P.ev
 
 Determined(P, e) ==
   /\ e[2] \notin Decoys
   /\ ~Dyn(P, e[3])
-  /\ IF IsLibTok(e) THEN LibDefined(P, e[3]) ELSE BScope(P, e) # 0
+  /\ IF IsLibTok(e) THEN LibDefined(P, e[3])
+     ELSE IF IsSibTok(e) THEN SibDefined(P, e[3])
+     ELSE BScope(P, e) # 0
 
 \* the binding partition: all tokens of binding <<r, n>>
-Occ(P, r, n) == { e \in AllEv(P) : e[3] = n /\ e[2] \notin Decoys /\ ~IsLibTok(e) /\ BScope(P, e) = r }
+Occ(P, r, n) == { e \in AllEv(P) : e[3] = n /\ e[2] \notin Decoys /\ ~IsLibTok(e) /\ ~IsSibTok(e)
+                                   /\ BScope(P, e) = r }
 \* the class of a token: lib's name, or the binding of its scope
-ClassOf(P, e) == IF InLib(P, e) THEN LibOcc(P, e[3]) ELSE Occ(P, BScope(P, e), e[3])
+ClassOf(P, e) == IF InLib(P, e) THEN LibOcc(P, e[3])
+                 ELSE IF IsSibTok(e) THEN SibOcc(P, e[3])
+                 ELSE Occ(P, BScope(P, e), e[3])
 
 \* the name of def s is bound exactly once (by that def): a call through the
 \* name right after the def reaches s whatever the control flow
@@ -257,9 +277,11 @@ WellFormed(P) ==
                  /\ \A c \in CompChain(P, s) : ~Has(P, c, "for", n)
   \* multi-module part
   /\ (P.lib = "none") => \A e \in P.ev : ~(e[2] \in LibOps \cup LibRefOps)
+  /\ (P.lib # "shadowed") => \A e \in P.ev : ~IsSibTok(<<e[1], e[2], e[3], 0>>)
   /\ \A n \in AllNames :
        \* a reference to lib's n needs the definition (ImportError otherwise)
        /\ (\E e \in P.ev : e[2] \in (LibRefOps \cup {"libuse"}) /\ e[3] = n) => LibDefined(P, n)
+       /\ (\E e \in P.ev : e[2] \in (SibRefOps \cup {"sibuse"}) /\ e[3] = n) => SibDefined(P, n)
        /\ \A s \in ScopeIds(P) :
             Has(P, s, "fromlib", n) =>
               \* the alias is the only binder of n in s and nothing redirects it
@@ -302,6 +324,8 @@ AddEvent(s, op, n) ==
   /\ Cardinality(ev) < MaxEv
   /\ s \in 1..Len(scopes)
   /\ op \in Ops \cap OpsOf(scopes[s].kind)
+  /\ (op \in SibRefOps) => lib = "shadowed"
+  /\ (op \in LibRefOps) => lib # "none"
   /\ n \in Names
   /\ <<s, op, n>> \notin ev
   /\ ev' = ev \cup {<<s, op, n>>}
@@ -312,7 +336,8 @@ AddLibEvent(op, n) ==
   /\ phase = "build"
   /\ lib # "none"
   /\ Cardinality(ev) < MaxEv
-  /\ op \in Ops \cap LibOps
+  /\ op \in Ops \cap (LibOps \cup SibOps)
+  /\ (op \in SibOps) => lib = "shadowed"
   /\ n \in Names
   /\ <<0, op, n>> \notin ev
   /\ ev' = ev \cup {<<0, op, n>>}
@@ -362,6 +387,21 @@ RenameLib(n, new) ==
   /\ pre' = Prog
   /\ UNCHANGED <<lib, libname>>
 
+\* rename a top-level name of the sibling module (layout "shadowed")
+RenameSib(n, new) ==
+  /\ phase = "build"
+  /\ DoRename
+  /\ WellFormed(Prog)
+  /\ n \in Names
+  /\ new \in RenTargets \ {n}
+  /\ SibDefined(Prog, n)
+  /\ LET occ == SibOcc(Prog, n) IN
+       ev' = { IF <<e[1], e[2], e[3], 0>> \in occ THEN <<e[1], e[2], new>> ELSE e : e \in ev }
+  /\ phase' = "renamed"
+  /\ ren' = [kind |-> "sib", scope |-> 0, old |-> n, new |-> new]
+  /\ pre' = Prog
+  /\ UNCHANGED <<scopes, lib, libname>>
+
 \* a name whose definition lies outside the project cannot be renamed: the only
 \* program-preserving outcome of the request is that nothing changes (refusal)
 RenameExternal(n, new) ==
@@ -398,9 +438,10 @@ AnyRename   == \E r \in 1..Len(scopes), n \in Names, new \in AllNames : Rename(r
 AnyRenameLib == \E n \in Names, new \in AllNames : RenameLib(n, new)
 AnyRenameModule == \E new \in ModFresh : RenameModule(new)
 AnyRenameExternal == \E n \in Names, new \in AllNames : RenameExternal(n, new)
+AnyRenameSib == \E n \in Names, new \in AllNames : RenameSib(n, new)
 
 Next == AnyAddScope \/ AnyAddEvent \/ AnyAddLibEvent \/ AnyRename \/ AnyRenameLib \/ AnyRenameModule
-          \/ AnyRenameExternal
+          \/ AnyRenameExternal \/ AnyRenameSib
 
 Spec == Init /\ [][Next]_vars
 
@@ -411,7 +452,7 @@ TypeOK ==
        /\ scopes[i].kind \in Kinds \cup {"module"}
        /\ scopes[i].parent \in 0..(i - 1)
        /\ (i = 1) = (scopes[i].kind = "module")
-  /\ \A e \in ev : e[1] \in 0..Len(scopes) /\ e[3] \in AllNames /\ (e[1] = 0) = (e[2] \in LibOps)
+  /\ \A e \in ev : e[1] \in 0..Len(scopes) /\ e[3] \in AllNames /\ (e[1] = 0) = (e[2] \in LibOps \cup SibOps)
   /\ lib \in Libs
   /\ phase \in {"build", "renamed"}
 
@@ -461,7 +502,8 @@ OccPartition ==
     LET cls == { r \in ScopeIds(P) : e \in Occ(P, r, e[3]) /\ r \notin AliasScopes(P, e[3]) }
         inlib == e \in LibOcc(P, e[3]) IN
       IF e[2] \in Decoys THEN cls = {} /\ ~inlib
-      ELSE IF InLib(P, e) THEN inlib /\ cls = {}
+      ELSE IF IsSibTok(e) THEN cls = {} /\ ~inlib /\ e \in SibOcc(P, e[3])
+      ELSE IF InLib(P, e) THEN inlib /\ cls = {} /\ e \notin SibOcc(P, e[3])
       ELSE IF BScope(P, e) # 0 THEN cls = {BScope(P, e)} /\ ~inlib
       ELSE cls = {} /\ ~inlib
 
@@ -492,6 +534,7 @@ AlphaEq ==
             old == ren'.old
             new == ren'.new
             occ == IF ren'.kind = "lib" THEN LibOcc(P, old)
+                   ELSE IF ren'.kind = "sib" THEN SibOcc(P, old)
                    ELSE IF ren'.kind \in {"module", "external"} THEN {} ELSE Occ(P, r, old)
         IN
           /\ WellFormed(Q)
@@ -501,6 +544,7 @@ AlphaEq ==
                  /\ f \in AllEv(Q)
                  /\ BScope(Q, f) = BScope(P, e)
                  /\ InLib(Q, f) = InLib(P, e)
+                 /\ IsSibTok(f) = IsSibTok(e)
           /\ Cardinality(AllEv(Q)) = Cardinality(AllEv(P))
           /\ Q.lib = P.lib
           /\ Q.libname = (IF ren'.kind = "module" THEN new ELSE P.libname)
